@@ -262,6 +262,9 @@ func (c *Client) exec(s *Step) error {
 		if len(c.Plan.Random) == 32 {
 			u.SetClientRandom(c.Plan.Random) // (ApplyPreset draws a fresh one)
 		}
+		if lv := c.Plan.Hello.LegacyVers; lv != 0 {
+			u.HandshakeState.Hello.Vers = lv
+		}
 		c.tls = u
 		if err := u.Handshake(); err != nil {
 			c.HandshakeErr = err.Error()
@@ -306,6 +309,9 @@ func (c *Client) exec(s *Step) error {
 		}
 		if len(c.Plan.Random) == 32 {
 			u.SetClientRandom(c.Plan.Random) // (ApplyPreset draws a fresh one)
+		}
+		if lv := c.Plan.Hello.LegacyVers; lv != 0 {
+			u.HandshakeState.Hello.Vers = lv
 		}
 		c.tls = u
 		c.ConnectedAt = c.W.Now()
